@@ -55,8 +55,11 @@ pub fn block_contents_x(rng: &mut Rng, es: &[(Vec<u8>, Vec<u8>)], free: bool, in
     let mut b = vec![];
     let mut restarts: Vec<u32> = vec![];
     let mut prev: Vec<u8> = vec![];
+    // restart density of this block: every ~3rd entry, every ~40th entry, or only the mandatory first one
+    // (other producers use intervals far above this crate's default of 16)
+    let density = *rng.pick(&[3usize, 3, 40, 0]);
     for (i, (k, v)) in es.iter().enumerate() {
-        let restart = i == 0 || (free && rng.chance(1, 3)) || (!free && i % 16 == 0);
+        let restart = i == 0 || (free && density > 0 && rng.chance(1, density)) || (!free && i % 16 == 0);
         let shared = if restart {
             restarts.push(b.len() as u32);
             0
@@ -107,9 +110,11 @@ pub fn encode_table(rng: &mut Rng, cmp: &CmpKind, es: &[(Vec<u8>, Vec<u8>)], mut
     let mut parts: Vec<Vec<(Vec<u8>, Vec<u8>)>> = vec![];
     let mut i = 0;
     while i < es.len() {
-        let n = match rng.below(4) {
+        let n = match rng.below(6) {
             0 => 1,
             1 => rng.range(1, 3),
+            // long blocks: dozens of entries, possibly behind a single restart point (see block_contents_x)
+            2 => rng.range(20, 70),
             _ => rng.range(1, 12),
         }
         .min(es.len() - i);
